@@ -86,9 +86,13 @@ def suite_schema_traces(chk):
     path = os.path.join(d, "tr.json")
     verdicts = {}
     try:
+        # binding demonstration: one record with a key added to the description taken after the call must be rejected
+        import copy
+        bent = copy.deepcopy(recs[0]["schema"])
+        bent["after"]["rest"] = bent["after"]["rest"] + " "
         with open(path, "w") as f:
-            json.dump({"traces": [sp["schema"] for sp in recs]}, f)
-        cfg = flow.cfg_text(constants={"NTr": len(recs)}, invariants=["Verdict"], properties=["SchemaUnchanged"])
+            json.dump({"traces": [sp["schema"] for sp in recs] + [bent]}, f)
+        cfg = flow.cfg_text(constants={"NTr": len(recs) + 1}, invariants=["Verdict"], properties=["SchemaUnchanged"])
         r = tlc.run("ZSchemaStable", cfg, on_value=lambda v: verdicts.__setitem__(v["tid"], v), workers=2,
                     timeout=900, env={"TRACE_FILE": path})
     finally:
@@ -97,6 +101,9 @@ def suite_schema_traces(chk):
     if r.violation:
         from ..core import MachineryError
         raise MachineryError("TLC: %s\n%s" % (r.violation, r.error_text[:2000]))
+    if (verdicts.get(len(recs) + 1) or {}).get("clause") != "schema-changed":
+        from ..core import MachineryError
+        raise MachineryError("ZSchemaStable accepts a record whose description was changed on purpose")
     tally = {}
     for i, sp in enumerate(recs, 1):
         chk.evaluations += 1
